@@ -462,7 +462,7 @@ def initialize():
             f_type="integer(C_INT8_T)",
             f_kind="C_INT8_T",
             f_module=dict(iso_c_binding=["C_INT8_T"]),
-            PY_format="i",
+            PY_format="B",
             PY_ctor="PyInt_FromLong({ctor_expr})",
             PY_get="PyInt_AsLong({py_var})",
             PYN_typenum="NPY_INT8",
@@ -482,7 +482,7 @@ def initialize():
             f_type="integer(C_INT16_T)",
             f_kind="C_INT16_T",
             f_module=dict(iso_c_binding=["C_INT16_T"]),
-            PY_format="i",
+            PY_format="h",
             PY_ctor="PyInt_FromLong({ctor_expr})",
             PY_get="PyInt_AsLong({py_var})",
             PYN_typenum="NPY_INT16",
@@ -543,7 +543,7 @@ def initialize():
             f_type="integer(C_INT8_T)",
             f_kind="C_INT8_T",
             f_module=dict(iso_c_binding=["C_INT8_T"]),
-            PY_format="i",
+            PY_format="B",
             PY_ctor="PyInt_FromLong({ctor_expr})",
             PY_get="PyInt_AsLong({py_var})",
             PYN_typenum="NPY_UINT8",
@@ -563,7 +563,7 @@ def initialize():
             f_type="integer(C_INT16_T)",
             f_kind="C_INT16_T",
             f_module=dict(iso_c_binding=["C_INT16_T"]),
-            PY_format="i",
+            PY_format="H",
             PY_ctor="PyInt_FromLong({ctor_expr})",
             PY_get="PyInt_AsLong({py_var})",
             PYN_typenum="NPY_UINT16",
